@@ -54,14 +54,14 @@ TDebug == /\ "VERIF_DEBUGL" \in DOMAIN IOEnv /\ ToString(l) = IOEnv.VERIF_DEBUGL
 
 TNext ==
   \/ TDebug
-  \/ Inr(\E r \in RPCs : CliSkipOp(r) \/ SrvSkipOp(r) \/ CliAlloc(r) \/ CliSendNew(r) \/ CliNewRet(r) \/ CliNewFail(r)
+  \/ Inr(\E r \in RPCs : CliSkipOp(r) \/ SrvSkipOp(r) \/ CliAlloc(r) \/ CliSendNew(r) \/ CliNewRet(r) \/ CliNewFail(r) \/ CliSendNewFail(r)
                        \/ CliReserve(r) \/ CliEmit(r) \/ CliEmitFail(r) \/ CliSendAbort(r) \/ CliSendRet(r) \/ CliHalf(r) \/ CliHalfRet(r)
                        \/ CliDequeue(r) \/ CliCredit(r) \/ CliRecvMsgRet(r) \/ CliRecvEnd(r) \/ CliFinStep(r) \/ CliWatchFire(r)
                        \/ CliCancelCAS(r) \/ CliCancelRcv(r) \/ CliEmitCancel(r) \/ HandlerStart(r) \/ SrvEmitReject(r)
                        \/ SrvEmitHdr(r) \/ SrvReserve(r) \/ SrvEmit(r) \/ SrvSendAbort(r) \/ SrvSendRet(r) \/ SrvRecvCtx(r)
                        \/ SrvDequeue(r) \/ SrvCredit(r) \/ SrvRecvMsgRet(r) \/ SrvRecvEnd(r) \/ SrvFinStep(r, "L")
                        \/ SrvFinStep(r, "H") \/ HandlerRetDone(r) \/ SrvEmitClose(r) \/ SrvWatchFire(r))
-  \/ Inr(CliCloseDo) \/ Inr(SrvServeExit)
+  \/ Inr(CliCloseDo) \/ Inr(SrvServeExit) \/ Inr(CliFailDo) \/ Inr(SrvFailExit) \/ Inr(RevHandlerReturn)
   \/ TQuiesce
   \/ \E r \in RPCs : Drv(CliOpStart(r), <<"cop", r, COp(r).op, COp(r).n>>)
   \/ \E r \in RPCs : Drv(SrvOpStart(r), <<"sop", r, SOp(r).op, IF SOp(r).op = "ret" THEN SOp(r).code ELSE SOp(r).n>>)
@@ -70,6 +70,7 @@ TNext ==
   \/ Drv(SrvDeliver, <<"deliver", 0, "c2s", 0>>)
   \/ Drv(CtlClose, <<"close", 0, "", 0>>)
   \/ Drv(Shutdown, <<"shutdown", 0, "", 0>>)
+  \/ Drv(CarFail, <<"carfail", 0, "", 0>>)
 
 TSpec == TInit /\ [][TNext]_tvars
 
